@@ -43,3 +43,12 @@ Definition ex_msg : value :=
          (12, [VEntry (SZ (-7)) (VS (SZ 1)); VEntry (SZ 3) (VS (SZ 0))]);
          (100, [VS (SN 18446744073709551615)]) ]
        [x98; x06; x07; xa5; x06; x01; x02; x03; x04].   (* unknown: 99:varint 7, 100:fixed32 *)
+
+(* Witness of finding FB3: a known group field whose value carries, as unknown bytes, a group
+   nested [n] deep.  n = 10001 is accepted wherever the wire scanner starts afresh
+   (ConsumeFieldValue allows nesting 10001), but protowire.ConsumeGroup over the enclosing known
+   group has one level less left. *)
+Definition fb3_schema : schema := [ [mkF 1 (KGrp 1) COpt None false false false]; [] ].
+Definition fb3_unknown (n : nat) : list byte :=
+  concat (repeat [xc3; x3e] n) ++ concat (repeat [xc4; x3e] n).   (* field 1000: start / end group *)
+Definition fb3_msg (n : nat) : value := VMsg [(1, [VMsg [] (fb3_unknown n)])] [].
